@@ -5,5 +5,6 @@ INIT TInit
 NEXT TNext
 CONSTRAINT Progress
 INVARIANT Bounded
+INVARIANT FreshZero
 POSTCONDITION Reached
 CHECK_DEADLOCK FALSE
